@@ -41,7 +41,7 @@ def _case(draw):
         c['spacing'] = draw(st.sampled_from(['log', 'arbitrary']))
         c['steps'] = draw(st.lists(st.floats(1e-9, 1.0), min_size=n, max_size=n)) if c['spacing'] == 'arbitrary' else []
         c['decades'] = draw(st.floats(1e-6, 12.0))
-        k = draw(st.integers(1, 5))
+        k = draw(S.ints(1, 5))
         c['T'] = draw(st.lists(st.floats(30.0, 5000.0), min_size=k, max_size=k))
         c['mu'] = draw(st.lists(st.floats(1.0, 60.0), min_size=k, max_size=k))
     else:
